@@ -13,3 +13,6 @@ func VerifSetYieldFn(f func()) (old func()) {
 
 // VerifState reads the lock word (statistics only).
 func (l *Spinlock) VerifState() *uint32 { return &l.state }
+
+// VerifRaceEnabled reports whether this is the -race build.
+const VerifRaceEnabled = verifRaceEnabled
